@@ -800,12 +800,20 @@ class Server:
         Shutdown the server and close all connections.
         """
         self.server.close()
-        tasks = [asyncio.create_task(self.server.wait_closed())]
+        tasks = []
+        transports = []
         for connection in self.connections.values():
             connection._dispatcher.cancel()
             tasks.append(connection._dispatcher)
+            transports.append(connection.command_connection.writer.transport)
         logger.debug("waiting for %d tasks", len(tasks))
-        await asyncio.wait(tasks)
+        if tasks:
+            await asyncio.wait(tasks)
+        for transport in transports:
+            # a peer which does not read must not hold the shutdown: what
+            # is still unsent is dropped (no-op for a closed transport)
+            transport.abort()
+        await self.server.wait_closed()
 
     async def write_line(self, stream, line):
         logger.debug(line)
